@@ -690,7 +690,7 @@ class Shared:
 FOCUS = {
     "wordlists": ("wordlist", "wordlist", "wordlist", "mnemonic"),
     "tables": ("ellswift", "fresh-curve", "mult-Q", "prep-mult", "double-mult", "multi-mult", "mult-other-ec", "mult-G", "derive-pub", "second-gen", "b58decode", "electrum-old"),
-    "musig": ("musig-values", "musig-verify", "musig-verify"),
+    "musig": ("musig-values", "musig-verify", "musig-verify", "musig-adaptor"),
     "signers": ("dsa-signer", "ssa-signer", "dsa-signer", "ssa-signer", "dsa", "ssa"),
     # hand-rolled per-curve memos (module dicts) and nothing else: with the bound of such a memo lowered to one
     # entry every call on another curve is a miss, so check-then-act windows on the dict are a step wide per call
@@ -713,7 +713,7 @@ def catalogue(ctx: Ctx, sh: Shared, wl: Any, k: int, only: tuple[str, ...] | Non
     kinds = [
         "mult-G", "mult-Q", "prep-mult", "double-mult", "multi-mult", "mult-other-ec",
         "derive-prv", "derive-pub", "b58decode", "wordlist", "mnemonic", "second-gen",
-        "electrum-old", "address", "dsa", "ssa", "musig-values", "musig-verify", "merkle", "dsa-signer", "ssa-signer",
+        "electrum-old", "address", "dsa", "ssa", "musig-values", "musig-verify", "musig-adaptor", "merkle", "dsa-signer", "ssa-signer",
         "fresh-curve", "fresh-curve", "fresh-curve-dsa", "curve-id-reuse", "ellswift",
     ]
     if only is not None:
@@ -817,6 +817,23 @@ def catalogue(ctx: Ctx, sh: Shared, wl: Any, k: int, only: tuple[str, ...] | Non
 
         elif kind == "musig-values":
             fn = lambda: (lambda v: (v.Q, v.b, v.R, v.e, v.gacc, v.tacc))(musig2.session_values(sh.m_session))  # noqa: E731
+        elif kind == "musig-adaptor":
+            # the shared session and its adaptor twin (the same nonce, keys, tweaks and message; btclib's sixth field
+            # differs), each context built anew for the call as `psbt.musig2` builds them, asked in a drawn order: the
+            # nonce coefficient commits to the adaptor point, so the two sessions never have one b, whichever was met first
+            T = b"\x02" + gk.xonly(s)
+            first = ch.draw(2, "call.adaptor-first")
+
+            def fn(T: bytes = T, first: int = first) -> Any:
+                ctxs = [musig2.SessionContext(*sh.m_args), musig2.SessionContext(*sh.m_args, adaptor=T)]
+                vals = [None, None]
+                for k in (first, 1 - first):
+                    vals[k] = musig2.session_values(ctxs[k])
+                plain, twin = vals
+                if plain.b == twin.b or (plain.R, plain.e) == (twin.R, twin.e):  # type: ignore[union-attr]
+                    raise Mismatch("history: a session with an adaptor answered with the values of the session without it" if first == 0 else "history: a session without an adaptor answered with the values of its adaptor twin")
+                return (twin.Q, twin.b, twin.R, twin.e, plain.b, plain.R, plain.e)  # type: ignore[union-attr]
+
         elif kind == "musig-verify":
             i = ch.draw(2, "call.i")
             fn = lambda i=i: musig2.partial_sig_verify_(sh.m_psigs[i], sh.m_pubn[i], sh.m_pks[i], sh.m_session)  # noqa: E731
@@ -939,7 +956,7 @@ def _independence(ctx: Ctx, rng: SimRng) -> None:
     baseline = [fn() for _, fn in calls]
     ctx.log("baseline", len(calls), sum(1 for b in baseline if b.startswith("ok")))
     for (kind, _), b in zip(calls, baseline):
-        ctx.check(P, "answer-independent-of-object-identity", not b.startswith("bad:"), b, site=kind)
+        ctx.check(P, "answer-independent-of-history" if b.startswith("bad:history") else "answer-independent-of-object-identity", not b.startswith("bad:"), b, site=kind)
     shrink = ch.draw(4, "shrink")
     mgr = st.ShrunkCaches(shrink) if shrink else None
     if mgr is not None:
@@ -959,7 +976,7 @@ def _independence(ctx: Ctx, rng: SimRng) -> None:
             got = fn()
             ctx.log("call", kind, got[:12])
             ctx.state(f"{kind}:{st.backend()}")
-            ctx.check(P, "answer-independent-of-object-identity", not got.startswith("bad:"), got, site=kind)
+            ctx.check(P, "answer-independent-of-history" if got.startswith("bad:history") else "answer-independent-of-object-identity", not got.startswith("bad:"), got, site=kind)
             ctx.check(P, "answer-independent-of-history", got == baseline[j], lambda: f"{kind}: {got} != baseline {baseline[j]} (bindings={st.backend()})", site=kind)
     finally:
         if mgr is not None:
